@@ -1029,7 +1029,97 @@ fn fault_cases_raw(rng: &mut Rng, thorough: bool) -> Vec<BodyCase> {
     v
 }
 
+/// Bodies of several hundred small frames read to the end INSIDE a tokio task without ever
+/// yielding (`block_on`, a spawned task, current-thread and multi-thread runtimes): where the
+/// runtime's per-task state (cooperative budget, thread-locals of the worker) is what it is in
+/// production. Every byte announced must arrive, in order, before the clean end.
+pub fn tokio_task_cases(em: &mut Emit) {
+    use http_body::Body as _;
+    for multi_thread in [false, true] {
+        let rt = if multi_thread {
+            tokio::runtime::Builder::new_multi_thread().worker_threads(2).enable_all().build().unwrap()
+        } else {
+            tokio::runtime::Builder::new_current_thread().enable_all().build().unwrap()
+        };
+        for (range, want) in [
+            (None, vec![(0u64, 12_000u64)]),
+            (Some("bytes=100-1099"), vec![(100, 1100)]),
+            (Some("bytes=0-399, 500-1199"), vec![(0, 400), (500, 1200)]),
+        ] {
+            for spawned in [false, true] {
+                let mut e = HEntity::new(12_000);
+                e.etag = Some(b"\"s\"".to_vec());
+                // 3-byte chunks: 400 frames and more
+                let scripts: Vec<Vec<Ev>> = want.iter().map(|(a, b)| (*a..*b).step_by(3).map(|p| Ev::Chunk(content(p..(p + 3).min(*b)))).collect()).collect();
+                let e = e.fresh(scripts);
+                let mut q = HReq::get();
+                q.dress = 0;
+                q.range = range.map(|r| r.as_bytes().to_vec());
+                let req = q.build();
+                let fut = async move {
+                    let resp = http_serve::serve(e, &req);
+                    let announced: Option<u64> = resp.headers().get("content-length").and_then(|v| v.to_str().ok()).and_then(|v| v.parse().ok());
+                    let mut body = Box::pin(resp.into_body());
+                    let mut got: Vec<u8> = vec![];
+                    let mut end = "no end within 100000 frames";
+                    for _ in 0..100_000 {
+                        match std::future::poll_fn(|cx| body.as_mut().poll_frame(cx)).await {
+                            Some(Ok(f)) => got.extend_from_slice(&f.into_data().map(|d| d.to_vec()).unwrap_or_default()),
+                            Some(Err(_)) => {
+                                end = "error";
+                                break;
+                            }
+                            None => {
+                                end = "clean end";
+                                break;
+                            }
+                        }
+                    }
+                    (announced, got, end)
+                };
+                let r = std::panic::catch_unwind(std::panic::AssertUnwindSafe(|| {
+                    if spawned {
+                        rt.block_on(async { tokio::spawn(fut).await.ok() })
+                    } else {
+                        Some(rt.block_on(fut))
+                    }
+                }));
+                let (ok, why) = match r {
+                    Ok(Some((announced, got, end))) => {
+                        // the entity bytes must be there in order (a multipart body carries them between its part headers)
+                        let mut pos = 0usize;
+                        let mut all = true;
+                        for (a, b) in &want {
+                            let needle = content(*a..*b);
+                            match got[pos..].windows(needle.len()).position(|w| w == &needle[..]) {
+                                Some(i) => pos += i + needle.len(),
+                                None => all = false,
+                            }
+                        }
+                        if end != "clean end" {
+                            (false, format!("{} after {} bytes", end, got.len()))
+                        } else if announced != Some(got.len() as u64) {
+                            (false, format!("clean end after {} bytes, {:?} announced", got.len(), announced))
+                        } else if !all {
+                            (false, "the body ended cleanly with its announced length but bytes of the entity are missing from it".to_string())
+                        } else {
+                            (true, String::new())
+                        }
+                    }
+                    _ => (false, "panic".to_string()),
+                };
+                em.pred_only(
+                    &format!("12000-byte entity in 3-byte chunks, Range {:?}, read to the end inside a tokio task ({} runtime, {})", range, if multi_thread { "multi-thread" } else { "current-thread" }, if spawned { "spawned" } else { "block_on" }),
+                    &pred(ok, || why.clone()),
+                    "tokio-task",
+                );
+            }
+        }
+    }
+}
+
 pub fn c01(em: &mut Emit, thorough: bool, seed: u64) {
+    tokio_task_cases(em);
     let mut rng = Rng::new(seed ^ 0xC01);
     for c in honest_cases(&mut rng, thorough) {
         run_case(em, &c, &pred_c01);
@@ -1088,6 +1178,7 @@ pub fn c01(em: &mut Emit, thorough: bool, seed: u64) {
 pub fn c02(em: &mut Emit, thorough: bool, seed: u64) {
     // the entity the crate ships: files served with Range headers
     crate::suites_fs::serve_over_files(em);
+    tokio_task_cases(em);
     let mut rng = Rng::new(seed ^ 0xC02);
     // corpus: F2
     {
@@ -1365,7 +1456,109 @@ pub fn c06_huge(em: &mut Emit, rng: &mut Rng, n: usize) {
     }
 }
 
+/// An entity whose range stream delivers `good` honest bytes in chunks of `chunk`, then PANICS,
+/// and when polled again after that simply ends (a stream whose generator died).
+use bytes::Bytes;
+
+struct PanicEntity {
+    len: u64,
+    good: u64,
+    chunk: u64,
+}
+struct PanicStream {
+    pos: u64,
+    stop: u64,
+    chunk: u64,
+    panicked: bool,
+}
+impl futures_core::Stream for PanicStream {
+    type Item = Result<Bytes, BoxError>;
+    fn poll_next(mut self: std::pin::Pin<&mut Self>, _cx: &mut std::task::Context<'_>) -> std::task::Poll<Option<Self::Item>> {
+        if self.panicked {
+            return std::task::Poll::Ready(None);
+        }
+        if self.pos >= self.stop {
+            self.panicked = true;
+            panic!("entity stream panics");
+        }
+        let n = self.chunk.min(self.stop - self.pos);
+        let d = content(self.pos..self.pos + n);
+        self.pos += n;
+        std::task::Poll::Ready(Some(Ok(Bytes::from(d))))
+    }
+}
+impl http_serve::Entity for PanicEntity {
+    type Error = BoxError;
+    type Data = Bytes;
+    fn len(&self) -> u64 {
+        self.len
+    }
+    fn get_range(&self, r: std::ops::Range<u64>) -> std::pin::Pin<Box<dyn futures_core::Stream<Item = Result<Bytes, BoxError>> + Send + Sync>> {
+        Box::pin(PanicStream { pos: r.start, stop: (r.start + self.good).min(r.end.saturating_sub(1)), chunk: self.chunk, panicked: false })
+    }
+    fn add_headers(&self, _: &mut http::HeaderMap) {}
+    fn etag(&self) -> Option<http::HeaderValue> {
+        None
+    }
+    fn last_modified(&self) -> Option<std::time::SystemTime> {
+        None
+    }
+}
+
+/// C07 for the hardest way a stream can fail: it panics. A consumer that contains the panic and
+/// polls the body again must still not be told that the (truncated) body is complete.
+fn panicking_stream_cases(em: &mut Emit) {
+    use http_body::Body as _;
+    for range in [None, Some("bytes=10-59"), Some("bytes=0-9, 20-49")] {
+        for good in [0u64, 3, 10, 25] {
+            let mut b = http::Request::get("/");
+            if let Some(r) = range {
+                b = b.header("range", r);
+            }
+            let req = b.body(()).unwrap();
+            let resp = http_serve::serve(PanicEntity { len: 1000, good, chunk: 4 }, &req);
+            let announced: Option<u64> = resp.headers().get("content-length").and_then(|v| v.to_str().ok()).and_then(|v| v.parse().ok());
+            let mut body = Box::pin(resp.into_body());
+            let waker = noop_waker();
+            let mut cx = std::task::Context::from_waker(&waker);
+            let mut delivered = 0u64;
+            let mut panics = 0;
+            let mut outcome = "no terminal event in 400 polls";
+            for _ in 0..400 {
+                let r = std::panic::catch_unwind(std::panic::AssertUnwindSafe(|| body.as_mut().poll_frame(&mut cx)));
+                match r {
+                    Err(_) => {
+                        panics += 1;
+                        if panics > 3 {
+                            outcome = "keeps panicking";
+                            break;
+                        }
+                    }
+                    Ok(std::task::Poll::Ready(Some(Ok(f)))) => delivered += f.into_data().map(|d| d.len() as u64).unwrap_or(0),
+                    Ok(std::task::Poll::Ready(Some(Err(_)))) => {
+                        outcome = "error";
+                        break;
+                    }
+                    Ok(std::task::Poll::Ready(None)) => {
+                        outcome = "clean end";
+                        break;
+                    }
+                    Ok(std::task::Poll::Pending) => {}
+                }
+            }
+            std::mem::forget(body);
+            let ok = !(outcome == "clean end" && Some(delivered) != announced) && outcome != "no terminal event in 400 polls";
+            em.pred_only(
+                &format!("entity stream panics after {} good bytes of Range {:?}; the panic is contained and the body polled again", good, range),
+                &pred(ok, || format!("{} after {} of the {:?} bytes announced ({} panics seen)", outcome, delivered, announced, panics)),
+                "panicking-stream",
+            );
+        }
+    }
+}
+
 pub fn c07(em: &mut Emit, thorough: bool, seed: u64) {
+    panicking_stream_cases(em);
     let mut rng = Rng::new(seed ^ 0xC07);
     for c in fault_cases(&mut rng, thorough) {
         run_case(em, &c, &pred_c07);
